@@ -16,7 +16,8 @@ import sys
 from decimal import Decimal
 
 sys.path.insert(0, os.path.dirname(os.path.abspath(__file__)))
-import f2ts  # noqa: E402
+import f2ts
+import c2f  # noqa: E402
 
 ROOT = os.path.dirname(os.path.dirname(os.path.abspath(__file__)))
 
@@ -265,7 +266,10 @@ def main():
     h = hashlib.md5(open(src, 'rb').read() + open(__file__, 'rb').read() + open(os.path.join(repo, 'README.rst'), 'rb').read()
                     + open(os.path.join(repo, 'resources/description/dbd_modes.lis'), 'rb').read()
                     + open(os.path.join(repo, 'resources/description/dbd_isotopes.lis'), 'rb').read()
-                    + open(os.path.join(os.path.dirname(__file__), 'f2ts.py'), 'rb').read()).hexdigest()
+                    + open(os.path.join(os.path.dirname(__file__), 'f2ts.py'), 'rb').read()
+                    + open(os.path.join(os.path.dirname(__file__), 'c2f.py'), 'rb').read()
+                    + b''.join(open(os.path.join(repo, 'bxdecay0', n + '.cc'), 'rb').read() for n in c2f.PORT_ONLY
+                               if os.path.exists(os.path.join(repo, 'bxdecay0', n + '.cc')))).hexdigest()
     os.makedirs(outdir, exist_ok=True)
     gdir = outdir   # TLC finds the generated modules through -DTLA-Library=<outdir>
     os.makedirs(gdir, exist_ok=True)
@@ -306,6 +310,25 @@ def main():
                 schemes['%s@%d' % (routines[lr.lower()]['name'], lv)] = s
             except f2ts.Unsupported as e:
                 problems.append('%s@%d: %s' % (lr, lv, e))
+    # the scheme routines that exist only in the port (no reference text): same extraction on a rewriting of the C++ text
+    chains['port_only'] = {}
+    ptxt = []
+    for n in c2f.PORT_ONLY:
+        try:
+            ptxt.append(c2f.convert(os.path.join(repo, 'bxdecay0', n + '.cc'), n))
+        except (ValueError, OSError) as e:
+            problems.append('port-only %s: %s' % (n, e))
+    pfor = os.path.join(outdir, 'portonly.for')
+    open(pfor, 'w').write('\n'.join(ptxt) + '\n')
+    pr = f2ts.read_routines(pfor)
+    for r in pr.values():
+        try:
+            sch = f2ts.extract(pr, r['name'])
+            sch['port_only'] = True
+            schemes[r['name']] = sch
+            chains['port_only'][r['name']] = [{'call': r['name'], 'unless_alpha_first': False}]
+        except f2ts.Unsupported as e:
+            problems.append('port-only %s: %s' % (r['name'], e))
     apply_documented_deviations(schemes)
     for k, s in schemes.items():
         s['paths'] = f2ts.count_paths(s)
